@@ -36,7 +36,8 @@ META = dict(
     ],
 )
 
-FIELDS = ("hostkey_bit", "f_bit", "f_other", "sig_bit", "sigblob_bit", "sig_name", "swap_same", "swap_type")
+FIELDS = ("hostkey_bit", "f_bit", "f_other", "sig_bit", "sigblob_bit", "sig_lenprefix", "sig_name", "swap_same",
+          "swap_type")
 ALLNAMES = kexlab.HOSTALGS
 
 
@@ -87,6 +88,11 @@ def corrupt(field, kex, hostalg, payload, rng):
         sig = sshsig.s(name) + sshsig.s(flip_bit(rng, body))
     elif field == "sigblob_bit":
         sig = flip_bit(rng, sig)
+    elif field == "sig_lenprefix":
+        # most significant bit-pair of the length prefix of the signature body (inside the signature field)
+        name, body = sshsig.parse_sig(sig)
+        off = 4 + len(name)
+        sig = sig[:off] + bytes([sig[off] | 0x40]) + sig[off + 1:]
     elif field == "sig_name":
         name, body = sshsig.parse_sig(sig)
         new = rng.choice([n for n in ALLNAMES if n != name])
@@ -100,6 +106,43 @@ def corrupt(field, kex, hostalg, payload, rng):
     else:
         raise ValueError(field)
     return kexlab.build_reply(payload[0], ks, f, sig)
+
+
+def lenient_strings(buf, count):
+    """Length-prefixed fields read the way paramiko.Message reads them: a
+    length that runs past the end yields what is left (zero-padded below
+    1 MiB).  Only used to *classify* an accepted corruption by mechanism."""
+    out = []
+    off = 0
+    for _ in range(count):
+        hdr = buf[off:off + 4]
+        hdr += b"\0" * (4 - len(hdr))
+        n = int.from_bytes(hdr, "big")
+        off += 4
+        b = buf[off:off + n]
+        if len(b) < n < (1 << 20):
+            b += b"\0" * (n - len(b))
+        off += n
+        out.append(b)
+    return out
+
+
+def semantic(payload):
+    ks, f, sig = kexlab.parse_reply(payload)
+    name, body = lenient_strings(sig, 2)
+    if name.startswith(b"ecdsa-"):
+        r, sv = lenient_strings(body, 2)
+        val = (sshsig.to_int(r), sshsig.to_int(sv))
+    else:
+        val = body
+    return ks, f, name, val
+
+
+def encoding_only(orig, new):
+    try:
+        return orig != new and semantic(orig) == semantic(new)
+    except Exception:
+        return False
 
 
 # --------------------------------------------------------------------------------
@@ -254,6 +297,7 @@ def corrupt_case(ctx, kex, hostalg, field, exchange, sample):
             def fn(payload):
                 new = corrupt(field, kex, hostalg, payload, rng)
                 state["changed"] = new != payload
+                state["orig"], state["new"] = payload, new
                 return new
 
             lab.mitm.alter("ba", fn, ptype=rt)
@@ -269,6 +313,7 @@ def corrupt_case(ctx, kex, hostalg, field, exchange, sample):
                     if state["count"] == exchange + 1:
                         new = corrupt(field, kex, hostalg, raw, rng)
                         state["changed"] = new != raw
+                        state["orig"], state["new"] = raw, new
                         return _o(paramiko.Message(new))
                 return _o(m)
 
@@ -287,10 +332,16 @@ def corrupt_case(ctx, kex, hostalg, field, exchange, sample):
                     return
             api_raised = r is not None
             ok = r is None
-        # what did the client see?
-        pair.wait_for(lambda: not lab.tc.is_active(), 15)
+        # what did the client see?  (decided as soon as it is dead or has answered with NEWKEYS)
+        def newkeys_after_reply():
+            rep = lab.msgs("c", "in", [rt])
+            if len(rep) != exchange + 1:
+                return []
+            return [e for e in lab.msgs("c", "out", [21]) if e["n"] > rep[-1]["n"]]
+
+        pair.wait_for(lambda: not lab.tc.is_active() or newkeys_after_reply(), 30)
         replies = lab.msgs("c", "in", [rt])
-        if len(replies) != exchange + 1 or not state["changed"]:
+        if len(replies) != exchange + 1 or not state["changed"] or replies[-1]["payload"] != state.get("new"):
             ctx.case(("corrupt", kex, hostalg, field, exchange), nontrivial=False)
             ctx.count("corruptions_without_effect")
             return
@@ -298,17 +349,24 @@ def corrupt_case(ctx, kex, hostalg, field, exchange, sample):
         bad = replies[-1]
         ctx.count("corrupted_replies_delivered")
         ctx.count("corrupted_replies_delivered.%s" % ("initial" if exchange == 0 else "rekey"))
-        later_newkeys = [e for e in lab.msgs("c", "out", [21]) if e["n"] > bad["n"]]
-        wit = dict(case=desc, reply=bad["payload"], client_exc=repr(lab.pair.client_exc or lab.tc.saved_exception))
-        if later_newkeys:
-            ctx.violation("client sent NEWKEYS after a corrupted kex reply (%s)" % field,
-                          "the client answered a reply with an altered %s with NEWKEYS" % field, wit)
-        elif lab.tc.is_active() or ok:
-            if lab.tc.is_active() and not pair.wait_for(lambda: not lab.tc.is_active(), 20):
+        later_newkeys = newkeys_after_reply()
+        wit = dict(case=desc, reply=bad["payload"], original_reply=state["orig"],
+                   client_exc=repr(lab.pair.client_exc or lab.tc.saved_exception))
+        if later_newkeys or lab.tc.is_active():
+            if encoding_only(state["orig"], state["new"]):
+                # same K_S, same f, same algorithm name and same signature value once the strings are
+                # read the way Message.get_bytes reads them: only a length prefix was changed
+                ctx.count("accepted_with_altered_signature_encoding")
+                ctx.violation("client accepted a kex reply whose signature bytes were altered but decode to the same "
+                              "signature (over-long length prefix tolerated)",
+                              "a bit of a length prefix inside the reply's signature field was changed in transit and "
+                              "the client still completed the exchange", wit)
+            elif later_newkeys:
+                ctx.violation("client sent NEWKEYS after a corrupted kex reply (%s)" % field,
+                              "the client answered a reply with an altered %s with NEWKEYS" % field, wit)
+            else:
                 ctx.violation("client still active after a corrupted kex reply (%s)" % field,
                               "the client did not abort after a reply with an altered %s" % field, wit)
-            else:
-                ctx.count("aborts_observed")
         else:
             ctx.count("aborts_observed")
             if api_raised:
